@@ -217,6 +217,8 @@ type c19Env struct {
 	seq       int
 	sent      atomic.Int64
 	pool      []*c19Slot
+	// one example of the beyond-the-statement observation is kept per run
+	notedExample bool
 }
 
 func c19StartEtcd(t *testing.T) []string {
@@ -458,6 +460,96 @@ func (l *c19LeaseAPI) owns(id int64) bool {
 }
 
 // ---------------------------------------------------------------------------
+// KV wrapper (client.KV of one broker's etcd client): passes everything through,
+// except that the harness can arm ONE fault for the next lease-manager request
+// on a given lease key: "before" = the request fails without reaching etcd,
+// "after" = it takes effect in etcd but the broker sees an error (response lost).
+
+var errC19Injected = fmt.Errorf("verif-injected: etcdserver: request timed out")
+
+type c19KVAPI struct {
+	clientv3.KV
+	mu    sync.Mutex
+	key   string
+	mode  string
+	fired string
+}
+
+func (k *c19KVAPI) arm(key, mode string) {
+	k.mu.Lock()
+	k.key, k.mode, k.fired = key, mode, ""
+	k.mu.Unlock()
+}
+
+// disarm returns a description of the fault that was delivered since arm ("" if none).
+func (k *c19KVAPI) disarm() string {
+	k.mu.Lock()
+	defer k.mu.Unlock()
+	f := k.fired
+	k.key, k.mode, k.fired = "", "", ""
+	return f
+}
+
+func (k *c19KVAPI) take(key, what string) string {
+	k.mu.Lock()
+	defer k.mu.Unlock()
+	if k.mode == "" || k.key != key {
+		return ""
+	}
+	m := k.mode
+	k.mode = ""
+	k.fired = fmt.Sprintf("%s on %s fails %s taking effect", what, strings.TrimPrefix(key, c19LeasePrefix), map[string]string{"before": "without", "after": "after"}[m])
+	return m
+}
+
+func (k *c19KVAPI) Delete(ctx context.Context, key string, opts ...clientv3.OpOption) (*clientv3.DeleteResponse, error) {
+	switch k.take(key, "Delete") {
+	case "before":
+		return nil, errC19Injected
+	case "after":
+		if _, err := k.KV.Delete(ctx, key, opts...); err != nil {
+			return nil, err
+		}
+		return nil, errC19Injected
+	}
+	return k.KV.Delete(ctx, key, opts...)
+}
+
+func (k *c19KVAPI) Txn(ctx context.Context) clientv3.Txn { return &c19Txn{inner: k.KV.Txn(ctx), k: k} }
+
+type c19Txn struct {
+	inner clientv3.Txn
+	k     *c19KVAPI
+	key   string
+}
+
+func (t *c19Txn) If(cs ...clientv3.Cmp) clientv3.Txn {
+	for i := range cs {
+		if kb := string(cs[i].KeyBytes()); strings.HasPrefix(kb, c19LeasePrefix) {
+			t.key = kb
+		}
+	}
+	t.inner = t.inner.If(cs...)
+	return t
+}
+func (t *c19Txn) Then(ops ...clientv3.Op) clientv3.Txn { t.inner = t.inner.Then(ops...); return t }
+func (t *c19Txn) Else(ops ...clientv3.Op) clientv3.Txn { t.inner = t.inner.Else(ops...); return t }
+func (t *c19Txn) Commit() (*clientv3.TxnResponse, error) {
+	if t.key != "" {
+		switch t.k.take(t.key, "lease Txn") {
+		case "before":
+			return nil, errC19Injected
+		case "after":
+			if _, err := t.inner.Commit(); err != nil {
+				return nil, err
+			}
+			return nil, errC19Injected
+		}
+	}
+	return t.inner.Commit()
+}
+
+// ---------------------------------------------------------------------------
 // brokers
 
 type c19Inst struct {
@@ -470,6 +562,7 @@ type c19Inst struct {
 	store     *metadata.EtcdStore
 	h         *handler
 	lapi      *c19LeaseAPI
+	kv        *c19KVAPI
 	shut      bool // ReleaseAll was called
 	dead      bool // crashed / stopped process
 	unnoticed bool // its session lease is expired on the server and it has not been told
@@ -592,6 +685,7 @@ func (e *c19Env) newWorld(ci int, autoCreate bool, partsA, partsB int32) *c19Wor
 type c19Slot struct {
 	store *metadata.EtcdStore
 	lapi  *c19LeaseAPI
+	kv    *c19KVAPI
 }
 
 func (e *c19Env) take() (*c19Slot, error) {
@@ -610,8 +704,9 @@ func (e *c19Env) take() (*c19Slot, error) {
 	}
 	e.t.Cleanup(func() { _ = store.Close() })
 	cli := store.EtcdClient()
-	s := &c19Slot{store: store, lapi: &c19LeaseAPI{real: cli.Lease}}
+	s := &c19Slot{store: store, lapi: &c19LeaseAPI{real: cli.Lease}, kv: &c19KVAPI{KV: cli.KV}}
 	cli.Lease = s.lapi // before any lease manager exists on this client
+	cli.KV = s.kv
 	return s, nil
 }
 
@@ -628,6 +723,7 @@ func (e *c19Env) give(s *c19Slot) {
 	s.lapi.mu.Lock()
 	s.lapi.leases = nil
 	s.lapi.mu.Unlock()
+	s.kv.disarm()
 	e.pool = append(e.pool, s)
 }
 
@@ -656,7 +752,7 @@ func (w *c19World) startInst(idx int) bool {
 		w.trouble = "harness: RefreshSnapshot: " + err.Error()
 		return false
 	}
-	b := &c19Inst{idx: idx, node: int32(idx + 1), id: fmt.Sprint(idx + 1), instID: len(w.all), slot: slot, store: slot.store, lapi: slot.lapi}
+	b := &c19Inst{idx: idx, node: int32(idx + 1), id: fmt.Sprint(idx + 1), instID: len(w.all), slot: slot, store: slot.store, lapi: slot.lapi, kv: slot.kv}
 	b.inst = &instance{id: b.instID}
 	b.h = newHandler(b.store, &s3View{v: w.s3, inst: b.inst}, c19Brokers()[idx], discardLogger())
 	if b.h.leaseManager == nil {
@@ -929,7 +1025,7 @@ func (w *c19World) writesBy(inst int, p c19Part, from, to int) int {
 }
 
 // ackClass names a success (or a write) given without the lease, by its cause.
-func (w *c19World) noLeaseCause(b *c19Inst, key string, after c19KV, present bool) string {
+func (w *c19World) noLeaseCause(b *c19Inst, key string, after c19KV, present bool, believed bool) string {
 	state := "key_absent"
 	if present {
 		state = "foreign_owner"
@@ -938,6 +1034,9 @@ func (w *c19World) noLeaseCause(b *c19Inst, key string, after c19KV, present boo
 		}
 	}
 	switch {
+	case !believed:
+		// not even the broker's own lease manager claimed the partition before the request
+		return "without_lease_and_without_local_claim_" + state
 	case b.unnoticed:
 		return "while_lease_expired_unnoticed_" + state
 	case w.foreignDel[key] == b.id:
@@ -971,9 +1070,14 @@ func (w *c19World) produce(b *c19Inst, parts []c19Part, acks int16, rng *rand.Ra
 			kinds["unknown_or_beyond"] = true
 		}
 	}
+	believedBefore := make([]bool, len(entries))
+	for i, e := range entries {
+		believedBefore[i] = b.h.leaseManager.Owns(e.part.Topic, e.part.P)
+	}
 	s0 := w.s3.eventCount()
 	payload, ok := w.call(b, c19BuildReq(entries, acks), int32(n))
 	s1 := w.s3.eventCount()
+	fault := b.kv.disarm()
 	if !ok {
 		return false
 	}
@@ -1005,6 +1109,10 @@ func (w *c19World) produce(b *c19Inst, parts []c19Part, acks int16, rng *rand.Ra
 	if b.shut {
 		st.Detail += " [ReleaseAll was called on this broker]"
 	}
+	if fault != "" {
+		st.Detail += " [injected etcd fault: " + w.label(fault) + "]"
+		w.r.Count("lease_txn_faults_delivered", 1)
+	}
 	type viol struct{ class, summary string }
 	var viols []viol
 	var retry []int
@@ -1032,7 +1140,7 @@ func (w *c19World) produce(b *c19Inst, parts []c19Part, acks int16, rng *rand.Ra
 			switch {
 			case neverHeld && o.Writes > 0:
 				o.Verdict = "VIOLATION: S3 writes without the lease"
-				viols = append(viols, viol{"write_" + w.noLeaseCause(b, key, after, hasAfter),
+				viols = append(viols, viol{"write_" + w.noLeaseCause(b, key, after, hasAfter, believedBefore[i]),
 					fmt.Sprintf("%s (acks=0) wrote %d S3 objects for %s while its lease key was %s for the whole request", b.name(), o.Writes, pname, o.After)})
 			case neverHeld:
 				o.Verdict = "ok: lease not held, nothing written"
@@ -1061,7 +1169,7 @@ func (w *c19World) produce(b *c19Inst, parts []c19Part, acks int16, rng *rand.Ra
 				}
 				w.acked = append(w.acked, c19Acked{part: e.part, batch: e.batch, inst: b.instID, step: n, base: base, broker: b.id})
 			case neverHeld:
-				cause := w.noLeaseCause(b, key, after, hasAfter)
+				cause := w.noLeaseCause(b, key, after, hasAfter, believedBefore[i])
 				o.Verdict = "VIOLATION: success without the lease"
 				viols = append(viols, viol{"ack_" + cause,
 					fmt.Sprintf("%s answered code 0 (base offset %d) for %s while the lease key was %s before AND after the request (unchanged: no event on the key in between)", b.name(), base, pname, o.After)})
@@ -1083,7 +1191,7 @@ func (w *c19World) produce(b *c19Inst, parts []c19Part, acks int16, rng *rand.Ra
 		default:
 			if o.Writes > 0 {
 				o.Verdict = "VIOLATION: S3 writes without the lease"
-				viols = append(viols, viol{"write_" + w.noLeaseCause(b, key, after, hasAfter),
+				viols = append(viols, viol{"write_" + w.noLeaseCause(b, key, after, hasAfter, believedBefore[i]),
 					fmt.Sprintf("%s answered %s for %s but wrote %d S3 objects for it while the lease key was %s for the whole request", b.name(), c19CodeName(code), pname, o.Writes, o.After)})
 				break
 			}
@@ -1235,6 +1343,7 @@ func (w *c19World) release(b *c19Inst, p c19Part) bool {
 	}
 	owned := b.h.leaseManager.Owns(p.Topic, p.P)
 	b.h.leaseManager.Release(p.Topic, p.P)
+	fault := b.kv.disarm()
 	w.clearVictim(b.id, p.key())
 	evs, ok := w.sync()
 	if !ok {
@@ -1250,6 +1359,10 @@ func (w *c19World) release(b *c19Inst, p c19Part) bool {
 	d := fmt.Sprintf("Release(%s/%d), broker believed it owned it: %v", w.label(p.Topic), p.P, owned)
 	if b.unnoticed {
 		d += " [session expired on the server, not yet noticed]"
+	}
+	if fault != "" {
+		d += " [injected etcd fault: " + w.label(fault) + "]"
+		w.r.Count("release_delete_faults_delivered", 1)
 	}
 	w.steps = append(w.steps, c19Step{N: len(w.steps) + 1, Op: "release", Broker: b.name(), Detail: d, Events: w.evStrings(evs)})
 	w.r.Count("step_release", 1)
@@ -1316,7 +1429,7 @@ func (w *c19World) notice(b *c19Inst, believed []c19Part) bool {
 		believed = w.believed(b)
 	}
 	n := b.lapi.notice()
-	deadline := time.Now().Add(c19Watchdog)
+	deadline := time.Now().Add(c19Watchdog / 2)
 	for {
 		still := 0
 		for _, p := range believed {
@@ -1328,7 +1441,7 @@ func (w *c19World) notice(b *c19Inst, believed []c19Part) bool {
 			break
 		}
 		if time.Now().After(deadline) {
-			w.fail(fmt.Sprintf("watchdog: %s still claims %d partition(s) %v after its keep-alive channel was closed", b.name(), still, c19Watchdog))
+			w.fail(fmt.Sprintf("watchdog: %s still claims %d partition(s) %v after its keep-alive channel was closed", b.name(), still, c19Watchdog/2))
 			return false
 		}
 		time.Sleep(200 * time.Microsecond)
@@ -1450,6 +1563,10 @@ func (w *c19World) endOfCase() {
 			}
 			w.noted = true
 			w.r.Count("obs_acked_batch_missing_from_s3_at_end_in_case_without_C19_violation", 1)
+			if w.e.notedExample {
+				break
+			}
+			w.e.notedExample = true
 			w.mu.Lock()
 			w.r.Note("obs_acked_batch_missing_example", map[string]any{"case": w.ci, "seed": w.r.Seed, "batch": w.label(a.batch), "partition": w.label(fmt.Sprintf("%s/%d", a.part.Topic, a.part.P)),
 				"acked_by_instance": a.inst, "acked_at_step": a.step, "base_offset": a.base, "case_violated_C19": w.violated, "steps": w.steps,
@@ -1565,7 +1682,12 @@ func (w *c19World) randomStep(rng *rand.Rand) bool {
 	x := rng.Intn(100)
 	switch {
 	case x < 56:
-		return w.produce(b, w.pickParts(b, rng), c19Acks(rng), rng)
+		parts := w.pickParts(b, rng)
+		if rng.Intn(6) == 0 {
+			// the lease manager's etcd request for one of the partitions fails
+			b.kv.arm(parts[rng.Intn(len(parts))].key(), []string{"before", "after"}[rng.Intn(2)])
+		}
+		return w.produce(b, parts, c19Acks(rng), rng)
 	case x < 64:
 		bel := w.believed(b)
 		var p c19Part
@@ -1574,6 +1696,9 @@ func (w *c19World) randomStep(rng *rand.Rand) bool {
 		} else {
 			u := w.universe(false)
 			p = u[rng.Intn(len(u))]
+		}
+		if rng.Intn(4) == 0 {
+			b.kv.arm(p.key(), "before") // the Delete never reaches etcd
 		}
 		return w.release(b, p)
 	case x < 71:
@@ -1724,7 +1849,7 @@ func TestVerifC19(t *testing.T) {
 }
 
 func c19SeqCases(env *c19Env, r *verifkit.Run) {
-	n := r.N(60, 1200)
+	n := r.N(80, 1000)
 	troubles := 0
 	var tSetup, tRun, tClose time.Duration
 	defer func() {
@@ -1818,7 +1943,7 @@ func (w *c19World) concWitness(rec *c19ConcRec, extra map[string]any) map[string
 const c19ConcRule = "same 3 real brokers, but 4 client goroutines keep several produce requests in flight on every broker (1-3 partitions of 3 contended partitions plus an out-of-range one) while a chaos goroutine, holding the target broker's gate exclusively (no request of that broker in flight), does Release / lease expiry+notice / crash+restart. Every request is bracketed by its own etcd barrier transactions (revisions R0,R1) and S3 event-log positions; judged afterwards against the WithPrevKV watch log: code 0 => this broker's id was the lease key's value at some revision in [R0,R1]; never the value in [R0,R1] => kerr-retriable code and no S3 upload by this broker instance under the partition's prefix while the request ran. Non-trivial case = had successes, foreign rejections and at least one partition acknowledged by two different brokers in turn."
 
 func c19ConcCases(env *c19Env, r *verifkit.Run) {
-	n := r.N(8, 200)
+	n := r.N(10, 150)
 	troubles := 0
 	for ci := 0; ci < n; ci++ {
 		rng := r.Rand(1000000 + ci)
